@@ -133,8 +133,8 @@ impl From<SendError> for TrySendError {
     }
 }
 
-impl From<mpsc::error::TrySendError<PortEvt>> for TrySendError {
-    fn from(err: mpsc::error::TrySendError<PortEvt>) -> Self {
+impl<T> From<mpsc::error::TrySendError<T>> for TrySendError {
+    fn from(err: mpsc::error::TrySendError<T>) -> Self {
         match err {
             mpsc::error::TrySendError::Full(_) => Self::Full,
             mpsc::error::TrySendError::Closed(_) => Self::Send(SendError::ChMux),
@@ -280,10 +280,14 @@ impl Sender {
     pub async fn send(&mut self, mut data: Bytes) -> Result<(), SendError> {
         if data.is_empty() {
             let mut credits = self.credits.request(1, 1).await?;
+
+            // Reserve queue space before taking credits, so that no credits
+            // are lost if this future is dropped while waiting.
+            let permit = self.tx.reserve().await?;
             credits.take(1);
 
             let msg = PortEvt::SendData { remote_port: self.remote_port, data, first: true, last: true };
-            self.tx.send(msg).await?;
+            permit.send(msg);
         } else {
             let mut first = true;
             let mut credits = AssignedCredits::default();
@@ -292,6 +296,8 @@ impl Sender {
                 if credits.is_empty() {
                     credits = self.credits.request(data.len().min(u32::MAX as usize) as u32, 1).await?;
                 }
+
+                let permit = self.tx.reserve().await?;
 
                 let at = data.len().min(self.chunk_size).min(credits.available() as usize);
                 let chunk = data.split_to(at);
@@ -304,7 +310,7 @@ impl Sender {
                     first,
                     last: data.is_empty(),
                 };
-                self.tx.send(msg).await?;
+                permit.send(msg);
 
                 first = false;
             }
@@ -329,9 +335,10 @@ impl Sender {
         if data.is_empty() {
             match self.credits.try_request(1)? {
                 Some(mut credits) => {
+                    let permit = self.tx.try_reserve()?;
                     credits.take(1);
                     let msg = PortEvt::SendData { remote_port: self.remote_port, data, first: true, last: true };
-                    self.tx.try_send(msg)?;
+                    permit.send(msg);
                     Ok(())
                 }
                 None => Err(TrySendError::Full),
@@ -341,6 +348,8 @@ impl Sender {
                 Some(mut credits) => {
                     let mut first = true;
                     while !data.is_empty() {
+                        let permit = self.tx.try_reserve()?;
+
                         let at = data.len().min(self.chunk_size);
                         let chunk = data.split_to(at);
 
@@ -352,7 +361,7 @@ impl Sender {
                             first,
                             last: data.is_empty(),
                         };
-                        self.tx.try_send(msg)?;
+                        permit.send(msg);
 
                         first = false;
                     }
@@ -406,6 +415,8 @@ impl Sender {
                     self.credits.request(data_len.min(u32::MAX as usize) as u32, size_of::<u32>() as u32).await?;
             }
 
+            let permit = self.tx.reserve().await?;
+
             let max_ports = self.chunk_size.min(credits.available() as usize) / size_of::<u32>();
             let next =
                 if ports_response.len() > max_ports { ports_response.split_off(max_ports) } else { Vec::new() };
@@ -419,7 +430,7 @@ impl Sender {
                 wait,
                 ports: ports_response,
             };
-            self.tx.send(msg).await?;
+            permit.send(msg);
 
             ports_response = next;
             first = false;
@@ -494,11 +505,12 @@ impl<'a> ChunkSender<'a> {
             if self.credits.is_empty() {
                 self.credits = self.sender.credits.request(1, 1).await?;
             }
+            let permit = self.sender.tx.reserve().await?;
             self.credits.take(1);
 
             let msg =
                 PortEvt::SendData { remote_port: self.sender.remote_port, data, first: self.first, last: finish };
-            self.sender.tx.send(msg).await?;
+            permit.send(msg);
 
             self.first = false;
         } else {
@@ -507,6 +519,8 @@ impl<'a> ChunkSender<'a> {
                     self.credits =
                         self.sender.credits.request(data.len().min(u32::MAX as usize) as u32, 1).await?;
                 }
+
+                let permit = self.sender.tx.reserve().await?;
 
                 let at = data.len().min(self.sender.chunk_size).min(self.credits.available() as usize);
                 let chunk = data.split_to(at);
@@ -519,7 +533,7 @@ impl<'a> ChunkSender<'a> {
                     first: self.first,
                     last: data.is_empty() && finish,
                 };
-                self.sender.tx.send(msg).await?;
+                permit.send(msg);
 
                 self.first = false;
             }
